@@ -26,6 +26,7 @@ Inductive val :=
 Inductive fmt :=
 | FU8 | FU16 | FU32
 | FEnum (pref : list N)           (* one octet; the generator prefers [pref] *)
+| FOctLt (lim : N)                (* one octet whose value is below [lim] (booleans: 2) *)
 | FBytes (n : N)
 | FRest
 | FMpi
@@ -106,6 +107,7 @@ Fixpoint enc (f : fmt) (v : val) : option bytes :=
   match f, v with
   | FU8, VN n => if n <? 256 then Some [n2b n] else None
   | FEnum _, VN n => if n <? 256 then Some [n2b n] else None
+  | FOctLt lim, VN n => if (n <? 256) && (n <? lim) then Some [n2b n] else None
   | FU16, VN n => if n <? 65536 then Some (be16 n) else None
   | FU32, VN n => if n <? 4294967296 then Some (be32 n) else None
   | FBytes n, VB b => if lenN b =? n then Some b else None
@@ -164,6 +166,7 @@ Fixpoint dec_many (d : bytes -> option (val * bytes)) (fuel : nat) (b : bytes)
 Fixpoint dec (f : fmt) (b : bytes) : option (val * bytes) :=
   match f with
   | FU8 | FEnum _ => match b with a :: r => Some (VN (b2n a), r) | [] => None end
+  | FOctLt lim => match b with a :: r => if b2n a <? lim then Some (VN (b2n a), r) else None | [] => None end
   | FU16 => match b with a :: a' :: r => Some (VN (de16 a a'), r) | _ => None end
   | FU32 => match b with a :: a' :: a'' :: a''' :: r => Some (VN (de32 a a' a'' a'''), r)
                     | _ => None end
@@ -222,6 +225,7 @@ Fixpoint dec (f : fmt) (b : bytes) : option (val * bytes) :=
 Inductive sd : fmt -> Prop :=
 | sd_u8 : sd FU8 | sd_u16 : sd FU16 | sd_u32 : sd FU32
 | sd_enum p : sd (FEnum p)
+| sd_octlt l : sd (FOctLt l)
 | sd_bytes n : sd (FBytes n)
 | sd_mpi : sd FMpi
 | sd_const c : sd (FConst c)
@@ -232,6 +236,7 @@ Inductive sd : fmt -> Prop :=
 Inductive wf : fmt -> Prop :=
 | wf_u8 : wf FU8 | wf_u16 : wf FU16 | wf_u32 : wf FU32
 | wf_enum p : wf (FEnum p)
+| wf_octlt l : wf (FOctLt l)
 | wf_bytes n : wf (FBytes n)
 | wf_rest : wf FRest
 | wf_mpi : wf FMpi
@@ -288,6 +293,7 @@ Fixpoint gen (f : fmt) (r : rnd) : val * rnd :=
       let '(y, r2) := next r1 in
       if (x mod 4 =? 0) || (lenN pref =? 0) then (VN (y mod 256), r2)
       else (VN (nth (N.to_nat (y mod lenN pref)) pref 0 mod 256), r2)
+  | FOctLt lim => let '(x, r1) := next r in (VN (if lim =? 0 then 0 else x mod lim), r1)
   | FBytes n => let '(b, r1) := gen_bytes (N.to_nat n) r in (VB b, r1)
   | FRest => let '(x, r1) := next r in
              let '(b, r2) := gen_bytes (N.to_nat (pick_len x)) r1 in (VB b, r2)
